@@ -210,3 +210,25 @@ package websockets
 //@   loop 1
 //@     assigns mapof(result)
 //@     invariant[C09:strip-progress] result != nil && !allocated0(result) && forall_str(k, in(k, result) <==> (in(k, header) && visited[k] && !wsName(k))) && forall_str(k, in(k, result) ==> result[k] == header[k])
+
+// Proxy: the shim endpoints are mounted only under the cleaned shim prefix; every other path goes to the wrapped
+// handler itself, unwrapped and unmodified (C13, second sentence).
+//@ func Proxy props(C13,C07)
+//@   requires wrapped != nil && openWebsocketWrapper != nil
+//@   ghost regs int = 0
+//@   ghost rootRegs int = 0
+//@   ghost cleaned string = ""
+//@   call path.Clean
+//@     assert[C13:prefix-is-the-configured-shim-path] arg0 == "/" + old(shimPath)
+//@     do cleaned = ret0
+//@   call createShimChannel
+//@     assert[C13:shim-server-for-the-backend-host] arg1 == host && arg2 == cleaned + "/"
+//@   call (*http.ServeMux).Handle
+//@     assert[C13:only-shim-prefix-and-root-are-mounted] (arg1 == "/" && arg2 == wrapped && rootRegs == 0) || (arg1 == cleaned + "/" && old(shimPath) != "" && regs == 0 && rootRegs == 0)
+//@     do regs = regs + ite(arg1 == "/", 0, 1)
+//@     do rootRegs = rootRegs + ite(arg1 == "/", 1, 0)
+//@   ensures[C13:root-goes-to-the-wrapped-handler] rootRegs == 1 && r1 == nil && r0 != nil
+
+//@ func createShimChannel props(C12,C13,C07)
+//@   requires openWebsocketWrapper != nil
+//@   ensures r0 != nil
